@@ -598,6 +598,15 @@ func Run(r *mc.Run) {
 			r.Deadline = r.Deadline.Add(time.Since(t0))
 		}
 	}
+	// part 3: the node's active-version lookup follows the canonical chain (own time cap as well)
+	if os.Getenv("VERIF_C12_NO_ACTIVE") == "" {
+		t0 := time.Now()
+		runActiveVersion(r)
+		r.SetExtra("active_version_wall_s", time.Since(t0).Seconds())
+		if !r.Deadline.IsZero() {
+			r.Deadline = r.Deadline.Add(time.Since(t0))
+		}
+	}
 	installCritHook()
 	r.Assume("MinUpgradeWaitRounds >= 1 (no shipped table uses 0; with 0 window close and switch can be the same round)")
 	r.Assume("header numbers increase by one (checked elsewhere by the header verifier); genesis = round 0, version 1, no proposal")
@@ -632,6 +641,10 @@ func Run(r *mc.Run) {
 
 // Replay re-executes a replay file without the explorer.
 func Replay(r *mc.Run, v *mc.Violation) {
+	if m, ok := v.Input.(map[string]interface{}); ok && m["part3"] == true {
+		replayActiveVersion(r, v)
+		return
+	}
 	if strings.HasPrefix(v.System, "worker-chain[") {
 		replayWorkerChain(r, v)
 		return
